@@ -62,16 +62,30 @@ ASSUMPTIONS = [
     "the softmax axis of TabTransformerConv is validated only through the oracle's equivariance runs",
     "H_torch_encoder_rowwise_equivariant (nn.TransformerEncoder in eval mode is row-wise and permutation-equivariant "
     "over tokens) is a hypothesis of the FT-Transformer theorem; observed through the layer",
+    "a rejection is DEMANDED only for TromptConv / TromptDecoder inputs whose shape disagrees with the configuration "
+    "(the statement's words); every other input on which the current code raises (x vs x_prompt batch mismatch, "
+    "ExcelFormerConv with a wrong column count, constructor arguments) is an observation: raise or normal return",
     "evaluation mode (dropout inactive); finiteness and determinism observed",
 ]
 KINDS = ["tab_conv", "ft_convs", "excel_conv", "trompt_conv", "trompt_decoder", "excel_decoder"]
 
+# CLAUSES -- where the oracle DEMANDS a rejection, and the words of the statement that back the demand
+#   accepts-mismatch:trompt_conv, accepts-mismatch:trompt_decoder
+#       "the Trompt layer and decoder reject inputs whose shape disagrees with their configuration instead of
+#        broadcasting": x / x_prompt with num_cols +- 1, channels + 1, num_prompts + 1, a 2-d input, and the size-1
+#        (broadcastable) variants of the column / prompt / channel / batch axes.
+#   NOT demanded (a raise and a normal return are both accepted; the Coq None-branch is compared only when the
+#   implementation did raise): x vs x_prompt batch-count mismatch (batch + 1), ExcelFormerConv with cols +- 1,
+#   constructor arguments (channels not divisible by heads).
+#   raises:<kind>:matching / raises:<kind>:forward: a correctly shaped input must NOT raise -- backed by "keep the
+#       [batch, columns, channels] layout" / "decoders reduce to [batch, out_channels] for any batch size including zero".
+#
 # ERROR_PATHS -- every raise / assert / special-case branch / dtype cast / integer buffer / hand-written numerically
 # "safe" formula in the anchored code, the generator kind that reaches it, and the oracle key that notices a change.
 #
 #  excelformer_conv.py
-#   DiaM.__init__ `assert channels % num_heads == 0` (only if heads > 1) .... extra(): constructor probe, key
-#                                                                             accepts-invalid-config:excel_conv
+#   DiaM.__init__ `assert channels % num_heads == 0` (only if heads > 1) .... extra(): constructor OBSERVATION (no
+#                                                                             clause demands the rejection)
 #   DiaM.__init__ `lin_out = Linear(...) if num_heads > 1 else None` .......... cases heads = 1 and heads >= 2 (sanity),
 #                                                                             core probe hooks the module output when
 #                                                                             lin_out is None; keys shape / no-influence
@@ -499,9 +513,17 @@ def _rejections(case, layer, x, xp):
         try:
             with torch.no_grad():
                 r = layer(a, b) if b is not None else layer(a)
-            res.append([name, list(a.shape), None if b is None else list(b.shape), False, list(r.shape)])
+            res.append([name, list(a.shape), None if b is None else list(b.shape), False, list(r.shape), backed(name)])
         except Exception:
-            res.append([name, list(a.shape), None if b is None else list(b.shape), True, None])
+            res.append([name, list(a.shape), None if b is None else list(b.shape), True, None, backed(name)])
+
+    def backed(name):
+        # a raise is DEMANDED only where the statement says so: "the Trompt layer and decoder reject inputs whose
+        # shape disagrees with their configuration instead of broadcasting" (configuration = num_cols / num_prompts /
+        # channels; "instead of broadcasting" = the size-1 variants).  Batch-count mismatches between x and x_prompt
+        # and everything about ExcelFormerConv are observations: a raise or a normal return are both accepted.
+        return case["kind"] in ("trompt_conv", "trompt_decoder") and not name.startswith("matching") \
+            and name != "x_prompt batch+1"
 
     if case["kind"] == "trompt_conv":
         cols = case["cols"]
@@ -607,11 +629,11 @@ def oracle(case, obs):
     for r, chd in obs["rows"]:
         if r not in chd:
             return dict(key=f"row-dead:{k}", what=f"{k}: perturbing row {r} never changed its own output")
-    for name, sa, sb, raised, shp in obs.get("rejections", []):
+    for name, sa, sb, raised, shp, is_backed in obs.get("rejections", []):
         if name.startswith("matching"):
             if raised:
                 return dict(key=f"raises:{k}:matching", what=f"{k} raised on a correctly shaped input")
-        elif not raised and k in ("trompt_conv", "trompt_decoder"):
+        elif not raised and is_backed:
             return dict(key=f"accepts-mismatch:{k}", what=f"{k} accepted an input whose shape disagrees with its "
                         f"configuration ({name}) and returned shape {shp} instead of raising",
                         expected="raise", observed=[name, sa, sb, shp])
@@ -794,26 +816,24 @@ def selftest_discrimination(rng):
 
 
 def constructor_probes():
-    """Configurations the constructors must reject."""
+    """What the constructors do with configurations they currently reject (recorded, not demanded)."""
     from torch_frame.nn import ExcelFormerConv
-    fails, n = [], 0
+    # OBSERVATION ONLY: no clause of C15 demands these rejections
+    seen = {}
     for ch, heads in ((6, 4), (5, 2), (8, 3)):
-        n += 1
         try:
             ExcelFormerConv(channels=ch, num_cols=3, num_heads=heads)
-            fails.append(dict(key="accepts-invalid-config:excel_conv", case=None,
-                              what=f"ExcelFormerConv(channels={ch}, num_heads={heads}) was constructed although the "
-                                   f"channels are not divisible by the heads"))
-        except Exception:
-            pass
-    return fails, n
+            seen[f"ExcelFormerConv(channels={ch}, num_heads={heads})"] = "constructed"
+        except Exception as ex:
+            seen[f"ExcelFormerConv(channels={ch}, num_heads={heads})"] = "raised " + C.exc_name(ex)
+    return [], seen
 
 
 def extra(tier, rng):
     f0, n0 = constructor_probes()
     f1, info = validate_mask_float(rng)
     f1 = f0 + f1
-    info = dict(info, constructor_probes=n0)
+    info = dict(info, constructor_observations=n0)
     f2, n = validate_torch_blocks(rng)
     f3, info3 = selftest_discrimination(rng)
     return f1 + f2 + f3, dict(info, torch_block_axis_checks=n, **info3)
@@ -883,7 +903,10 @@ def coq_term(case, obs, kind=None):
     B, cols, Pn, ch, h, out = case["B"], case["cols"], case["prompts"], case["channels"], case["heads"], case["out"]
     rows = "[" + "; ".join(f"({r}, {P.cnats(chd)})" for r, chd in obs["rows"]) + "]"
     core = "None" if obs.get("core_fp") is None else f"(Some {P.cbmat(obs['core_fp'])})"
-    rej3 = [r for r in obs.get("rejections", []) if len(r[1]) == 3 and (r[2] is None or len(r[2]) == 3)]
+    # the model mirrors the current code's raises; where the statement does not demand a rejection the model is
+    # compared only if the implementation did raise (a normal return there is not a mismatch)
+    rej3 = [r[:5] for r in obs.get("rejections", []) if len(r[1]) == 3 and (r[2] is None or len(r[2]) == 3)
+            and (r[5] or r[3] or r[0].startswith("matching"))]
     if k == "tab_conv":
         return (f"(layer_fp_ok {cols} {cols} (Some (p_tab_conv {h} {ch} (pin {B} {cols} {ch}))) {B} {rows} "
                 f"{P.cbmat(obs['colfp'])} && core_ok {cols} {ch} 0 (p_tab_core {h} {ch} {cols}) {core})")
